@@ -53,7 +53,8 @@ def strategy(tier):
         oids = draw(st.lists(st.one_of(st.sampled_from(OID_PATTERNS).map(lambda b: list(b)),
                                        st.lists(st.integers(0, 255), min_size=8, max_size=8).filter(lambda l: l[0] < 255)),
                              max_size=n, unique_by=lambda l: tuple(l)))
-        return {'nodes': nodes, 'oids': oids, 'export': draw(st.integers(0, 11)), 'xkinds': draw(st.lists(st.sampled_from(['N', 'A']), min_size=2, max_size=2))}
+        return {'nodes': nodes, 'oids': oids, 'export': draw(st.integers(0, 11)),
+                'poison': draw(st.sampled_from([None, None, None, 0, 1, 2, 5])), 'xkinds': draw(st.lists(st.sampled_from(['N', 'A']), min_size=2, max_size=2))}
     return graph()
 
 
@@ -208,16 +209,22 @@ def execute(case):
     databases = {}
     db1 = ZODB.DB(s1, database_name='one', databases=databases)
     db2 = ZODB.DB(s2, database_name='two', databases=databases)
+    db3 = ZODB.DB(MappingStorage('three'), database_name='three', databases=databases)
     tm = transaction.TransactionManager()
     conn = db1.open(tm)
+    conn3 = conn.get_connection('three')
     conn2 = conn.get_connection('two')
     try:
-        # cross-database targets, committed beforehand
+        # cross-database targets, committed beforehand: one in database 'two', one in 'three', and the one in
+        # 'two' also refers to the one in 'three' (a diamond one -> two -> three, one -> three)
         xt = []
         for i, k in enumerate(case['xkinds']):
             o = make_node(k, 'XMARK%d' % i, Gone)
-            conn2.root()['x%d' % i] = o
+            (conn2 if i == 0 else conn3).root()['x%d' % i] = o
             xt.append(o)
+        tm.commit()
+        payload_of(xt[0])['items'].append(xt[1])
+        xt[0]._p_changed = True
         tm.commit()
         feed = OidFeed(s1, case['oids'])
         s1.new_oid = feed
@@ -246,13 +253,33 @@ def execute(case):
                     features.add('nested')
                 if tgt == i:
                     features.add('self-cycle')
-        root = conn.root()
-        for i, sp in enumerate(spec):
-            if sp['root']:
-                root['n%d' % i] = objs[i]
-            if sp['add']:
-                conn.add(objs[i])
-                features.add('explicit-add')
+        def attach():
+            root = conn.root()
+            for i, sp in enumerate(spec):
+                if sp['root']:
+                    root['n%d' % i] = objs[i]
+                if sp['add']:
+                    conn.add(objs[i])
+                    features.add('explicit-add')
+        attach()
+        if case.get('poison') is not None and any(t == 'w' for sp in spec for (_, _, t) in sp['edges']):
+            # (a persistent.wref.WeakRef made for a then-new target keeps the oid it was given during the failed
+            # attempt - state of the `persistent` package that ZODB's disowning cannot reach: DESIGN 10.2 obs. 9)
+            out.excluded += 1
+        elif case.get('poison') is not None:
+            # the first attempt to store the graph fails while one of the new objects is pickled; after the
+            # abort the same in-memory objects are attached and stored again
+            victim = payload_of(objs[case['poison'] % n])
+            victim['poison'] = lambda: None
+            try:
+                tm.commit()
+            except Exception as e:          # noqa: B902
+                if 'pickle' not in (type(e).__name__ + str(e)).lower():
+                    raise
+                features.add('first-attempt-failed')
+            tm.abort()
+            del victim['poison']
+            attach()
         tm.commit()
         # ---- expected stored set
         expected = set()
@@ -322,10 +349,15 @@ def execute(case):
         try:
             seen = {}
 
+            by_id = {}
+
             def visit(o):
                 oid = o._p_oid
                 if o._p_jar is cb and cb.get(oid) is not o:
                     raise AssertionError('two objects for oid %r in one connection' % oid)
+                key = (o._p_jar.db().database_name, oid)
+                if by_id.setdefault(key, o) is not o:
+                    raise AssertionError('two in-memory objects for oid %r of database %r reached from one connection' % (oid, key[0]))
                 p = payload_of(o)
                 mark = p['mark']
                 if mark not in seen:
@@ -370,7 +402,7 @@ def execute(case):
             tm_b.abort()
             cb.close()
         if not out.failures:
-            legacy_records(s1, s2, spec, objs, strong, expected, oid_of, xt, out, features)
+            legacy_records(s1, s2, spec, objs, strong, expected, oid_of, xt, out, features, db3.storage)
         if not out.failures:
             export_import(case, conn, tm, db1, spec, objs, strong, expected, oid_of, out, features)
     finally:
@@ -379,12 +411,13 @@ def execute(case):
             tm.abort()
             db1.close()
             db2.close()
+            db3.close()
         except Exception:
             pass
     return finish(out, features)
 
 
-def legacy_records(s1, s2, spec, objs, strong, expected, oid_of, xt, out, features):
+def legacy_records(s1, s2, spec, objs, strong, expected, oid_of, xt, out, features, s_three=None):
     """(7) the same records as a Python-2-era ZODB wrote them: an oid whose bytes are all < 0x80 is a *str* in
     the pickle (SHORT_BINSTRING, same layout as SHORT_BINBYTES).  Reference extraction returns the same ids as
     bytes, and the graph loads identically from a storage holding these records."""
@@ -434,6 +467,8 @@ def legacy_records(s1, s2, spec, objs, strong, expected, oid_of, xt, out, featur
     dbs = {}
     db3 = ZODB.DB(s3, database_name='one', databases=dbs)
     ZODB.DB(s2, database_name='two', databases=dbs)
+    if s_three is not None:
+        ZODB.DB(s_three, database_name='three', databases=dbs)
     tm3 = transaction.TransactionManager()
     c3 = db3.open(tm3)
     try:
